@@ -1,0 +1,11 @@
+//go:build verif
+
+// Contracts for the deductive checks under /verif (comment-only; compiled only with -tags verif).
+
+package discover
+
+// Every byte string arriving in a datagram is parsed without a run-time panic (index, slice,
+// nil dereference, type assertion), whatever its length and content; hashing, signature
+// recovery and the RLP stream decoder are opaque callees here.
+//@ func decodePacket
+//@   nopanic[C17]
